@@ -615,8 +615,8 @@ theorem step_solvent {cfg : Cfg} {s s' : State} {op : Op} (hc : OpConserving op)
     cases hd : withdrawReq cfg s a u p pc e with
     | none => simp [hd] at h
     | some r => obtain ⟨s1, id⟩ := r; simp [hd] at h; subst h; exact hs.of_gs (gs_withdrawReq hd)
-  | order a u p t b mo mp pr am l e => exact hs.of_gs (gs_placeOrder h)
-  | mmOrder a u p bs ss l e => exact hs.of_gs (gs_mmOrder h)
+  | order a u p t b od dd mo mp am l => obtain ⟨_, _, h⟩ := placeOrderMsg_core h; exact hs.of_gs (gs_placeOrder h)
+  | mmOrder a u p xs ns sa xb nb ba l => obtain ⟨_, _, h⟩ := mmOrderMsg_core h; exact hs.of_gs (gs_mmOrder h)
   | cancel a u p i => exact hs.of_gs (gs_cancelOrder h)
   | cancelAll a u ps => exact hs.of_gs (gs_cancelAll h)
   | cancelMM a u p => exact hs.of_gs (gs_cancelMM h)
